@@ -162,7 +162,8 @@ OpsC05 ==   \* refresh never widens, never crosses clients; issuance rule
         c \in {"A", "P"}, gr \in {Full, <<"a", "b">>, <<"offline", "b">>}, au \in {<<>>, <<AudA>>, <<AudA, AudB>>}}
         \cup {AuthzG("A", "code", Full, Full, <<AudA, AudB>>, <<AudA>>, "sent", "none")} ELSE {})
   \cup (IF CanMint THEN {Redeem(Owner(k), "ok", k, "same", "none", <<>>, <<>>) : k \in {x \in Codes : st.S.code[x].active}} ELSE {})
-  \cup (IF CanMint THEN {Password("A", "ok", "ok", sc, au) : sc \in {<<"a">>, <<"offline", "a">>}, au \in {<<>>, <<AudA>>}} ELSE {})
+  \cup (IF CanMint THEN {Password("A", "ok", "ok", sc, au) : sc \in {<<"a">>, <<"offline", "a">>}, au \in {<<>>, <<AudA>>}}
+                       \cup {PasswordG("A", "ok", "ok", <<"offline", "a">>, <<"a">>, <<>>)} ELSE {})     \* the refresh scope requested, not granted
   \cup (IF CanMint THEN {Refresh(c, a, j, xs, xa) : j \in RTs, c \in {"A", "B", "P"}, a \in {"ok", "bad"},
               xs \in {<<>>, <<"b", "openid", "offline">>}, xa \in {<<>>, <<AudB>>}} ELSE {})
   \cup {ClientChange(c, f[1], f[2]) : c \in {"A", "P"},
@@ -189,7 +190,7 @@ OpsC07 ==   \* expiry of every stateful credential kind
   \cup (IF CanMint THEN {Refresh(st.S.rt[j].client, "ok", j, <<>>, <<>>) : j \in {x \in RTs : st.S.rt[x].active /\ st.S.rt[x].present}} ELSE {})
   \cup (IF CanMint THEN {CCreds("A", "ok", <<"a">>, <<>>)} ELSE {})
   \cup (IF Count(st.S.dev) < MaxDev THEN {DevStart("P", "ok", Full, Full, <<>>)} ELSE {})
-  \cup {DevDecide(d, dec) : d \in {x \in Devs : st.S.dev[x].ustate = "unused"}, dec \in {"accept", "accept_fresh"}}
+  \cup {DevDecide(d, dec) : d \in {x \in Devs : st.S.dev[x].ustate = "unused"}, dec \in {"accept", "accept_fresh", "accept_user_later"}}
   \cup (IF CanMint THEN {DevPoll("P", "ok", d) : d \in {x \in Devs : st.S.dev[x].present}} ELSE {})
   \cup (IF Count(st.S.par) < MaxPar THEN {Push("A", "ok", "code", <<"offline", "a">>, <<>>, "sent", "none", 0)} ELSE {})
   \cup (IF CanAuthz THEN {UsePar("A", "own", u, "none") : u \in {x \in Pars : st.S.par[x].present}} ELSE {})
@@ -254,7 +255,7 @@ OpsC16 ==   \* device grant state machine
 
 OpsC16b ==  \* the life of ONE device code over time: every decision, polls at every age, replay, by the owner
   (IF Count(st.S.dev) < MaxDev THEN {DevStart("P", "ok", Full, Full, <<>>)} ELSE {})
-  \cup {DevDecide(d, dec) : d \in {x \in Devs : st.S.dev[x].ustate = "unused"}, dec \in {"accept", "accept_fresh", "reject"}}
+  \cup {DevDecide(d, dec) : d \in {x \in Devs : st.S.dev[x].ustate = "unused"}, dec \in {"accept", "accept_fresh", "accept_user_later", "reject"}}
   \cup (IF CanMint THEN {DevPoll("P", "ok", d) : d \in Devs} ELSE {})
   \cup TickOps
 
@@ -266,7 +267,7 @@ OpsC17 ==   \* pushed authorization requests
         \cup {Push("A", "ok", "code", <<"a">>, <<>>, "sent", "request_uri", u) : u \in Pars} ELSE {})
   \cup (IF CanAuthz THEN
         {UsePar(c, "own", u, f) : c \in {"A", "B"}, u \in Pars,
-             f \in {"none", "redirect_uri", "response_type", "scope", "state", "audience", "response_mode"}}
+             f \in {"none", "redirect_uri", "response_type", "scope", "state", "audience", "response_mode", "nonce"}}
         \cup {UsePar("A", kind, 0, "none") : kind \in {"unknown", "foreign_prefix", "foreign_prefix_full", "absent"}}
         \cup {Authz("A", "code", <<"a">>, <<"a">>, <<>>, "sent", "none")} ELSE {})
   \cup (IF CanMint THEN {Redeem(Owner(k), "ok", k, "same", "none", <<>>, <<>>) : k \in {x \in Codes : st.S.code[x].active}} ELSE {})
